@@ -828,6 +828,20 @@ func (ss *SpecSet) loadFile(path string) error {
 				if old.Assumed != c.Assumed {
 					return fmt.Errorf("%s: contract %s declared both assumed and verified", pos, c.Key)
 				}
+				if len(c.Params) > 0 || c.Recv != "" {
+					if len(old.Params) == 0 && old.Recv == "" {
+						old.Params, old.Recv = c.Params, c.Recv
+					} else if strings.Join(old.Params, ",") != strings.Join(c.Params, ",") || old.Recv != c.Recv {
+						return fmt.Errorf("%s: contract %s: parameter names differ from %s", pos, c.Key, old.Pos)
+					}
+				}
+				if len(c.Results) > 0 {
+					if len(old.Results) == 0 {
+						old.Results = c.Results
+					} else if strings.Join(old.Results, ",") != strings.Join(c.Results, ",") {
+						return fmt.Errorf("%s: contract %s: result names differ from %s", pos, c.Key, old.Pos)
+					}
+				}
 				cur = old
 			} else {
 				ss.Contracts[c.Key] = c
